@@ -314,7 +314,10 @@ def run_property(prop, modname, tier, level, title='', record_baseline=False):  
             bounded_ok.append(nr['name'])
         elif nr['exit'] == 1 and res and res.get('violations'):
             for v in res['violations'][:50]:
-                violations.append((nr['name'] + '/' + v.get('check', ''),
+                chk = v.get('check', '')
+                vname = chk if re.match(r'C\d\d/', chk) else \
+                    nr['name'] + '/' + chk
+                violations.append((vname,
                                    v.get('input'), v.get('what'),
                                    nr['name'], None))
         else:
